@@ -40,6 +40,15 @@ IfCases == {[fam |-> "ifc", prog |-> IfProg(cq, el), ctx |-> CondCtx,
 \* literal conditions too (no context): the same values written in the template
 LitConds == {LB(FALSE), LB(TRUE), LI(0), LI(1), LS(<<>>), LS(<<97>>), Lit(Null), Arr(<<>>), Arr(<<LI(0)>>),
              Hash(<<>>, <<>>), Hash(<<LS(<<107>>)>>, <<LI(0)>>)}
+\* computed condition values (arithmetic results, lengths): zero is falsy however it was obtained
+CompConds == {Bin("-", LI(1), LI(1)), Bin("-", Var("c03"), Var("c03")), Bin("*", LI(3), LI(0)), Bin("+", Var("c04"), LI(1)),
+              Bin("-", LI(2), LI(1)), Filt("length", Var("c05"), <<>>), Filt("length", Var("c06"), <<>>), Filt("length", Var("c09"), <<>>),
+              Bin("%", LI(4), LI(2)), Bin("/", LI(0), LI(3)), Un("-", LI(0)), Bin("~", LS(<<>>), LS(<<>>)), Filt("abs", Var("c02"), <<>>)}
+CompIfCases == {[fam |-> "ifcomp", prog |-> <<IfElse(c, <<T1(65)>>, <<T1(69)>>)>>, ctx |-> CondCtx, tags |-> {"if", "compcond"}] : c \in CompConds}
+                \cup {[fam |-> "ifcomp", prog |-> <<Set("z", c), IfElse(Var("z"), <<T1(65)>>, <<T1(69)>>), PrintS(Cond(Var("z"), LI(1), LI(2)))>>,
+                        ctx |-> CondCtx, tags |-> {"if", "compcond", "viaset"}] : c \in CompConds}
+                \cup {[fam |-> "ifcomp", prog |-> <<IfElse(Un("not", c), <<T1(65)>>, <<T1(69)>>), IfElse(Bin("and", c, LB(TRUE)), <<T1(65)>>, <<T1(69)>>)>>,
+                        ctx |-> CondCtx, tags |-> {"if", "compcond", "not"}] : c \in CompConds}
 LitIfCases == {[fam |-> "ifl", prog |-> <<IfElse(c, <<T1(65)>>, <<T1(69)>>)>>, ctx |-> EmptyFn,
                 tags |-> {"if", "litcond:" \o c.k}] : c \in LitConds}
 
@@ -117,7 +126,7 @@ SetProgs == UNION {[1..n -> SetAlphabet] : n \in 1..MaxSetLen}
 SetCases == {[fam |-> "setp", prog |-> <<Set("x", LI(1)), Set("y", LI(0))>> \o p \o <<T1(124), PrintS(Var("x")), T1(44), PrintS(Var("y"))>>,
               ctx |-> EmptyFn, tags |-> {"set"} \cup {p[i].k : i \in 1..Len(p)}] : p \in SetProgs}
 
-AllCases == IfCases \cup LitIfCases \cup LoopCases \cup KvCases \cup NestCases \cup Nest3 \cup SetCases
+AllCases == IfCases \cup CompIfCases \cup LitIfCases \cup LoopCases \cup KvCases \cup NestCases \cup Nest3 \cup SetCases
 
 World(c) == MkW(("main" :> c.prog), {}, {}, NoFault)
 Ref(c) == Render(World(c), "main", c.ctx)
